@@ -5,4 +5,4 @@ From Msm Require Import Run Ids.
 Require Extraction.
 Require Import ExtrOcamlBasic.
 Extraction Language OCaml.
-Extraction "msm_model.ml" run run_op build init_rnode snapshot default_fuel doc_order seqn.
+Extraction "msm_model.ml" run run_op build init_rnode snapshot default_fuel doc_order seqn flags_snapshot.
